@@ -3,7 +3,7 @@ from props import endpoint
 
 
 def check(pid, tier, replay):
-    names = ["dra", "drb", "dsa", "dsb", "sr"] if tier == "thorough" else ["ra", "rb", "sa", "sb", "sr"]
+    names = ["dra", "drb", "dsa", "dsb", "sr", "mx"] if tier == "thorough" else ["ra", "rb", "sa", "sb", "sr", "mx"]
     gens = [("endpoint/CancelGen", "endpoint/CancelGen_%s.cfg" % n) for n in names]
     endpoint.run(pid, tier, replay, ("C16_", "C10_Exact", "C10_NotBefore", "C10_NoSpuriousError", "C08_Wake", "C07_Fifo", "C11_ContinuationId"), [("endpoint/Cancel", None)], gens,
                  "recv side: every sequence up to the depth bound over {recv, cancel the pending recv, 1-frame delivery, first / second frame of a 2-frame delivery}, auto-accept on and off, "
